@@ -128,7 +128,7 @@ func TestVerifDataWeighted(t *testing.T) {
 	}
 	defer e.cleanup()
 	mrand.Seed(vSeed())
-	for _, subs := range []string{"one", "two", "zero", "three"} {
+	for _, subs := range []string{"one", "two", "zero", "three", "shared"} {
 		for _, tname := range []string{"min", "prefix"} {
 			var ws []vrdW
 			for _, w := range vrdSubnetTable[subs] {
